@@ -37,7 +37,7 @@
    shows that the conditions of the task statement imply them. *)
 From SDJWT Require Import Base.Json Base.JsonFacts Params Codec.Base64 Codec.Utf8 Codec.JsonPrint Codec.JsonParse
   Model.Common Model.Issuer Model.Holder Model.Jwt Model.Verifier.
-From SDJWT Require Proofs.HolderFacts Proofs.VerifierFacts Proofs.JsonRoundtrip.
+From SDJWT Require Proofs.HolderFacts Proofs.VerifierFacts Proofs.JsonRoundtrip Proofs.JsonLaxFacts.
 From Coq Require Import Lia PeanoNat.
 
 (* ================================================================== *)
@@ -371,7 +371,10 @@ Definition form_of_raw (raw : members) : outcome parsed :=
 
 Lemma parse_json_form_raw : forall input raw, parse_json_raw input = Some (JObj raw) ->
   parse_json_form input = form_of_raw raw.
-Proof. intros input raw E. unfold parse_json_form. rewrite E. reflexivity. Qed.
+Proof.
+  intros input raw E. rewrite (JsonLaxFacts.parse_json_form_of_raw input _ E).
+  unfold parse_json_form_strict. rewrite E. reflexivity.
+Qed.
 
 Lemma count_key_app : forall k a b, count_key k (a ++ b) = (count_key k a + count_key k b)%nat.
 Proof.
@@ -681,7 +684,8 @@ Theorem parse_json_form_inv : forall t p, parse_json_form t = Ok p ->
   exists x, fields_of p = Some x /\ jwt_payload_decode (a_pl x) = Ok (p_payload p) /\
             p = json_record x (p_payload p).
 Proof.
-  intros t p P. unfold parse_json_form in P.
+  intros t0 p P0. destruct (JsonLaxFacts.parse_json_form_ok_strict t0 p P0) as (t & P). clear t0 P0.
+  unfold parse_json_form_strict in P.
   destruct (parse_json_raw t) as [[| | | | |raw]|]; try discriminate P.
   cbv zeta in P.
   match type of P with (if ?c then _ else _) = _ => destruct c end; [discriminate P|].
